@@ -2,6 +2,7 @@
 abstract kernels (coq/Geom/Assembly.v) against the real assembly on generated head models."""
 import os, sys, json, math, time
 import core, ombuild, models
+import c10_ops
 
 PROP = "C10"
 
@@ -85,6 +86,7 @@ def write_models(ck, specs):
         rng = random.Random(seed)
         m, _ = make_model(rng, kind, level)
         models.write_model(m, os.path.join(ck.workdir, "m%d" % k), fmt="tri")
+        c10_ops.write_extras(random.Random(seed + 1), kind, m, os.path.join(ck.workdir, "m%d" % k))
         infos.append(m)
     return infos
 
@@ -221,6 +223,23 @@ def main(replay=None):
                          "N computed from an injected integer S (pair %d of %s, S seed %d): entry (%d,%d) = %r, the model of operators.h:131-146 gives %r; %d entries differ; %s"
                          % (pk, specs[k][0], sd, i, j, b, a, len(bad), describe_entry(shape, i, j)),
                          dict(kind="nblock", specs=[specs[k]], pair=pk, sseed=sd, entry=[i, j], model=a, impl=b))
+    # ---- widened: the other assembly functions (library kernels), then everything with injected integer kernels
+    hbs = None
+    try:
+        hbs = os.path.join(bdir, "h_c10s")
+        srcs = os.path.join(core.VERIF, "harness", "h_c10s.cpp")
+        deps = [srcs, os.path.join(core.VERIF, "harness", "c10_ops.h"), os.path.join(core.VERIF, "harness", "wire.h")]
+        if not os.path.exists(hbs) or os.path.getmtime(hbs) < max(os.path.getmtime(d) for d in deps):
+            ombuild.build_harness(bdir, srcs, hbs, extra=["-I%s/OpenMEEG/src" % ombuild.REPO])
+    except RuntimeError as e:
+        ck.violation("harness-build (injected kernels)", "assembleHeadMat.cpp / assembleSourceMat.cpp / operators.h no longer compile with synthetic kernel classes: %s" % e,
+                     dict(kind="build", error=str(e)), found_input=False); hbs = None
+    desc = lambda z, i, j: describe_entry(z[1:-1], i, j)
+    okids = [k for k in small if res[k]["status"] == "ok"]
+    n_ops, e_ops, err_ops = c10_ops.run_ops(ck, hb, specs, okids, [4, 5, 6, 7, 8], False, 1e-11, compare_packed, desc)
+    n_syn = e_syn = 0; err_syn = []
+    if hbs:
+        n_syn, e_syn, err_syn = c10_ops.run_ops(ck, hbs, specs, okids, [9, 4, 5, 7], True, 1e-13, compare_packed, desc)
     # ---- (c) numeric spec checks (measured): potential row sums, conditioning after deflation, A*inv(A)=I
     lines = ["c10 3 %d %d" % (k, 1 if specs[k][2] else 0) for k in ids]
     extra = []
@@ -238,8 +257,15 @@ def main(replay=None):
         zi, fi = core.fparse(line)
         if zi is None or zi[0] != 0:
             ck.violation("numeric: implementation failed on %s" % kind, "HeadMat/SVD/invert failed on %s: %s" % (name, line[:100]), rp); continue
-        n, npot, ndefl, nparts, nmesh = zi[1:6]; worst, smin, smax, resid = fi
-        numeric.append(dict(model=name, n=n, potentials=npot, deflated_rows=ndefl, parts=nparts, rowsum_rel=worst, smin=smin, smax=smax, resid=resid))
+        n, npot, ndefl, nparts, nmesh, ncav = zi[1:7]; worst, smin, smax, resid, cav = fi
+        numeric.append(dict(model=name, n=n, potentials=npot, deflated_rows=ndefl, parts=nparts, rowsum_rel=worst, smin=smin, smax=smax, resid=resid,
+                            cavity_walls=ncav, cavity_indicator_residual=cav))
+        if ncav > 0 and cav > 1e-9:
+            ck.violation("cavity wall: indicator not in the kernel (%s)" % kind,
+                         "%s has %d current-barrier mesh(es) that deflate never touches, but |A*1_W|/max|A| = %.3g: theorem cavity_wall_indicator_in_kernel predicts 0 (Gauss' law for the D kernel or the block structure no longer holds)" % (name, ncav, cav), rp)
+        if not (smin > 1e-10 * smax) and ncav == 0 and nparts > 0:
+            ck.violation("singular head matrix without a cavity wall: %s" % kind,
+                         "the head matrix of %s is singular (sigma_min/sigma_max = %.3g) although every current-barrier mesh is deflated: not explained by cavity_wall_indicator_in_kernel" % (name, smin / smax if smax else 0.0), rp)
         if worst > 1e-9:
             ck.violation("row sums: %s" % kind, "a potential row off the deflated outer surfaces does not sum to zero over the potential columns on %s: |sum|/sum|.| = %.3g (theorem potential_rows_sum_zero_off_outer)" % (name, worst), rp)
         if not (smin > 1e-10 * smax):
@@ -251,5 +277,16 @@ def main(replay=None):
     ck.cov.update(evaluations=len(specs), distinct_nontrivial=len(set(specs)),
                   rule="generated head models (nested 1-4, split hemispheres with shared vertices, sibling inclusions, non-conductive inclusions/layers, random sigma, both orderings); distinct = distinct (topology, level, ordering, seed)",
                   samples=samples, op_distribution=dist, entries_compared=nentries, nblock_cases=len(ncases), nblock_entries_compared=nblock_entries,
-                  numeric_measured=numeric, ifirst_sentinel_picks_other_mesh=sentinel_cases, traces_validated_against_impl=len(specs) + len(ncases))
+                  numeric_measured=numeric, ops_cases=n_ops, ops_entries_compared=e_ops, ops_assert_outcomes=err_ops,
+                  injected_kernel_cases=n_syn, injected_kernel_entries_compared=e_syn, injected_kernel_assert_outcomes=err_syn, ifirst_sentinel_picks_other_mesh=sentinel_cases, traces_validated_against_impl=len(specs) + len(ncases))
+    ck.assumptions += [
+        "wf_indexed (index bijection of the dumped geometry): Section hypothesis of the structural theorems, discharged for every geometry accepted by finalize (default ordering) by C11's bridge coq/Geom/IndexBridgeC10.v",
+        "cavity_wall_indicator_in_kernel: Gauss' law for the abstract D kernel on the cavity wall seen from its partner meshes (hypothesis W_gauss), no shared vertices with the wall; replayed numerically on the real matrices",
+        "inside one N block of the head matrix the model reads S from the matrix as it was at block start (equal to the live reads when no vertex index equals a triangle index)",
+        "headmat_dimension: nb_parameters = #valid vertices + #current triangles + #barrier triangles (C11's count) is a premise",
+        "kernels (analyticS, analyticD3, Integrator) are abstract in the theorems; the ties run them as library code and as injected integer-valued classes compiled into operators.h / assembleHeadMat.cpp / assembleSourceMat.cpp",
+        "invertibility after deflation and |A*inv(A)-I| are measured (SVD, SymMatrix::invert), not proved"]
+    ck.cov["trusted_base"] += ["hand-written Gallina models coq/Geom/{Assembly,AssemblyOps}.v tied by entry-by-entry runs (harness/h_c10.cpp, h_c10s.cpp vs extracted extract/omm)",
+                               "extraction: ExtrOcamlBasic only; OCaml float record of extract/prelude.ml", "C++ harnesses, lib/models.py generators",
+                               "Reals axioms of the Coq standard library (R-instance theorems); MathComp file closed under the global context"]
     return ck.finish()
